@@ -381,11 +381,16 @@ static int skip_to (char *token, char *atoken)
  *             If it contains dot or dot-dot in the path, it is normalized using current_file as the base.
  * @return File descriptor, or -1 on failure.
  */
+#define INC_BUF_SIZE 1024	/* size of the path buffer handle_include() passes to inc_open() */
+
 static int inc_open (char *buf, const char *name) {
 
   int i, fd;
   char *p;
 
+  /* directory of the including file + '/' + name must fit */
+  if (strlen (current_file) + strlen (name) + 2 > INC_BUF_SIZE)
+    return -1;
   inc_lexically_normal (current_file, name, buf);
   /* the normalised name may still end in ".." or contain unresolved ".." components
    * ("..", "room/../..", "x/..//../y"): never open anything above the mudlib directory */
@@ -408,6 +413,8 @@ static int inc_open (char *buf, const char *name) {
         break;
       if (inc_list[i] == 0)
         continue;
+      if (strlen (inc_list[i]) + strlen (name) + 2 > INC_BUF_SIZE)
+        continue;
       sprintf (buf, "%s/%s", inc_list[i], name);
       if ((fd = FILE_OPEN (buf, O_RDONLY)) != -1)
         {
@@ -427,7 +434,7 @@ static int inc_open (char *buf, const char *name) {
 static void handle_include (const char *inc_name, int optional) {
   char *p, *name;
   char fname[PATH_MAX];
-  static char buf[1024];
+  static char buf[INC_BUF_SIZE];
   incstate_t *is;
   int delim, fd;
 
